@@ -141,6 +141,18 @@ type concCase struct {
 	Kinds    []string `json:"kinds"`
 	Force    []bool   `json:"force"` // per operation: the force flag (no influence on the protocol)
 	Schedule []int    `json:"schedule"`
+	// SameContent: every operation deploys the same chart with the same values (two CI jobs for one commit): the
+	// records they try to create are byte-identical
+	SameContent bool `json:"sameContent,omitempty"`
+	// MaxHistory: the history limit the upgrades run with (not in the Lean model: judged by the monitors only)
+	MaxHistory int `json:"maxHistory,omitempty"`
+}
+
+func concPayload(c concCase, i int) int {
+	if c.SameContent {
+		return 10
+	}
+	return 10 * (i + 1)
 }
 
 func corrConc(seed uint64, n int, tier string, out string, replay string) {
@@ -164,6 +176,10 @@ func corrConc(seed uint64, n int, tier string, out string, replay string) {
 		// known C01 finding about replace over a deployed revision would show)
 		if id.Index%5 == 4 && c.History != "failed-on-top" {
 			c.Kinds[id.Index/5%np] = "install-replace"
+		}
+		c.SameContent = id.Index%3 == 1
+		if id.Index%7 == 5 {
+			c.MaxHistory = 1 + id.Index/7%2
 		}
 		// a random interleaving of 6 steps each
 		left := make([]int, np)
@@ -288,12 +304,13 @@ func concRun(m *Model, rep *Report, c concCase, seed uint64, idx int) {
 					in.ReleaseName, in.Namespace, in.DisableOpenAPIValidation = "app", "default", true
 					in.Force = i < len(c.Force) && c.Force[i]
 					in.Replace = c.Kinds[i] == "install-replace"
-					_, errs[i] = in.Run(actChart(10*(i+1), false, false), map[string]any{})
+					_, errs[i] = in.Run(actChart(concPayload(c, i), false, false), map[string]any{})
 				} else {
 					up := action.NewUpgrade(cfg)
 					up.Namespace, up.DisableOpenAPIValidation = "default", true
 					up.Force = i < len(c.Force) && c.Force[i]
-					_, errs[i] = up.Run("app", actChart(10*(i+1), false, false), map[string]any{})
+					up.MaxHistory = c.MaxHistory
+					_, errs[i] = up.Run("app", actChart(concPayload(c, i), false, false), map[string]any{})
 				}
 			}); p != "" {
 				errs[i] = fmt.Errorf("panic: %s", p)
@@ -321,7 +338,7 @@ func concRun(m *Model, rep *Report, c concCase, seed uint64, idx int) {
 	// ---- the model on the same schedule ----
 	var procs []any
 	for i, k := range c.Kinds {
-		procs = append(procs, map[string]any{"kind": k, "payload": 10 * (i + 1)})
+		procs = append(procs, map[string]any{"kind": k, "payload": concPayload(c, i)})
 	}
 	sch := []any{}
 	for _, x := range c.Schedule {
@@ -337,6 +354,7 @@ func concRun(m *Model, rep *Report, c concCase, seed uint64, idx int) {
 	for _, k := range c.Kinds {
 		modelled = modelled && k != "install-replace"
 	}
+	modelled = modelled && c.MaxHistory == 0
 	var mr map[string]any
 	var want []modelRec
 	if modelled {
@@ -395,16 +413,38 @@ func concRun(m *Model, rep *Report, c concCase, seed uint64, idx int) {
 		}
 		msg := e.Error()
 		okMsg := strings.Contains(msg, "already exists") || strings.Contains(msg, "in progress") || strings.Contains(msg, "cannot re-use a name") || strings.Contains(msg, "cannot reuse a name") || strings.Contains(msg, "has no deployed releases")
-		if !okMsg {
+		if !okMsg && c.MaxHistory > 0 && strings.Contains(msg, "not found") && !touched[i] && len(created[i]) == 0 {
+			// two operations prune the same old record: the slower one's delete fails and it gives up before creating anything
+			rep.Issue(Issue{Kind: "monitor", Fingerprint: "C09:history-limit:loser-not-found", What: fmt.Sprintf("operation %d (%s) lost with a not-found error from pruning instead of already-exists / in-progress: %s", i, c.Kinds[i], trunc(msg, 160)), Case: c, Seed: seed, Index: idx})
+		} else if !okMsg {
 			rep.Issue(Issue{Kind: "monitor", Fingerprint: "C09:unexpected-error", What: fmt.Sprintf("operation %d (%s) failed with: %s", i, c.Kinds[i], trunc(msg, 200)), Case: c, Seed: seed, Index: idx})
 		}
 		if touched[i] || len(created[i]) > 0 {
 			rep.Issue(Issue{Kind: "monitor", Fingerprint: "C09:loser-touched", What: fmt.Sprintf("operation %d (%s) failed (%s) but had created a record or touched release resources", i, c.Kinds[i], trunc(msg, 120)), Case: c, Seed: seed, Index: idx})
 		}
 	}
+	// under a history limit: did an operation create a revision number the starting history already held (the record
+	// was pruned by a concurrent operation and its number used again)?
+	reused := ""
+	if c.MaxHistory > 0 {
+		for i := range created {
+			for _, k := range created[i] {
+				for _, b := range before {
+					if strings.HasSuffix(k, fmt.Sprintf(".v%d", b.Rev)) {
+						reused = k
+					}
+				}
+			}
+		}
+	}
 	for _, v := range ledgerViolations(before, after) {
 		if strings.Contains(v, "marked deployed") || strings.Contains(v, "duplicate") || strings.Contains(v, "pending") {
-			rep.Issue(Issue{Kind: "monitor", Fingerprint: "C09:history:" + strings.Fields(v)[0], What: v + " at quiescence", Case: c, Impl: after, Seed: seed, Index: idx})
+			fp := "C09:history:" + strings.Fields(v)[0]
+			if reused != "" && strings.Contains(v, "marked deployed") {
+				fp = "C09:history-limit:pruned-revision-reused"
+				v += " (" + reused + " was in the starting history, was pruned by one operation and created again by another)"
+			}
+			rep.Issue(Issue{Kind: "monitor", Fingerprint: fp, What: v + " at quiescence", Case: c, Impl: after, Seed: seed, Index: idx})
 		}
 	}
 	for _, r := range after {
